@@ -3,5 +3,5 @@
 P=$1; shift
 git -C /repo status --porcelain --untracked-files=no | grep -q . && { echo "repo dirty"; exit 2; }
 git -C /repo apply "$P" || { echo "patch does not apply"; exit 2; }
-for p in "$@"; do (cd /verif && ./check $p 2>&1 | cut -c1-220 | head -8); done
+for p in "$@"; do (cd /verif && VERIF_NO_EVIDENCE=1 ./check $p 2>&1 | cut -c1-220 | head -8); done
 git -C /repo checkout -- .
